@@ -5,6 +5,7 @@ import (
 	"encoding/json"
 	"fmt"
 	"log/slog"
+	"os"
 	"sync"
 	"sync/atomic"
 
@@ -74,7 +75,7 @@ func init() {
 			c.Violate("decode-mismatch", v.([2]string)[0], []byte(v.([2]string)[1]))
 		}
 		c.Count("processes_whose_first_decodes_were_side_by_side", 1)
-		if c.Batch%2 == 1 {
+		if c.Batch%2 == 1 && os.Getenv("VMON_PRELUDE_ONLY") == "" {
 			c04ConcurrentDecodes(c, r)
 		}
 	}
